@@ -108,6 +108,36 @@ static void worker(const Shared* S, unsigned seed, int count, int hist_kind, boo
     flush_use();
     { char tmp[96]; snprintf(tmp, sizeof tmp, "\"e\":\"ThreadEnd\",\"tid\":%d,\"decomp\":%ld", t_tid, t_decomp); logev(tmp); }
 }
+// "storm": T evaluators released together before every single evaluation (a spin barrier per step: all of them are in the same phase of a gate at the same
+// time), while a client thread keeps using the non-evaluation part of the library on the same keys (encrypt, decrypt, encode with other message spaces).
+struct Storm { std::atomic<int> arrived; std::atomic<int> gen; std::atomic<int> done; int T; };
+static void storm_barrier(Storm& B) { int g = B.gen.load(); if (B.arrived.fetch_add(1) + 1 == B.T) { B.arrived.store(0); B.gen.fetch_add(1); } else while (B.gen.load() == g) { } }
+static void storm_worker(const Shared* S, Storm* B, unsigned seed, int count) {
+    t_tid = g_next_tid.fetch_add(1) + 1;
+    { char tmp[64]; snprintf(tmp, sizeof tmp, "\"e\":\"ThreadStart\",\"tid\":%d", t_tid); logev(tmp); }
+    VhRng r(seed); int n = S->p->in_out_params->n; LweSample* out = new_gate_bootstrapping_ciphertext(S->p); const TFheGateBootstrappingCloudKeySet* bk = &S->sk->cloud;
+    for (int q = 0; q < count; q++) { int a = r.below(S->nin), b = r.below(S->nin), g = r.below(3);
+        storm_barrier(*B);
+        if (g == 0) { bootsNAND(out, S->in + a, S->in + b, bk); ev_eval("NAND", S->keyh, {S->inh[a], S->inh[b]}, hLwe(out, n), "storm"); }
+        else if (g == 1) { bootsXOR(out, S->in + a, S->in + b, bk); ev_eval("XOR", S->keyh, {S->inh[a], S->inh[b]}, hLwe(out, n), "storm"); }
+        else { bootsANDYN(out, S->in + a, S->in + b, bk); ev_eval("ANDYN", S->keyh, {S->inh[a], S->inh[b]}, hLwe(out, n), "storm"); } }
+    delete_gate_bootstrapping_ciphertext(out); B->done.fetch_add(1);
+    flush_use();
+    { char tmp[96]; snprintf(tmp, sizeof tmp, "\"e\":\"ThreadEnd\",\"tid\":%d,\"decomp\":%ld", t_tid, t_decomp); logev(tmp); }
+}
+static void storm_client(const Shared* S, Storm* B) {
+    t_tid = g_next_tid.fetch_add(1) + 1;
+    { char tmp[64]; snprintf(tmp, sizeof tmp, "\"e\":\"ThreadStart\",\"tid\":%d", t_tid); logev(tmp); }
+    LweSample* c = new_gate_bootstrapping_ciphertext_array(2, S->p); long k = 0, bad = 0; const LweKey* lk = S->sk->lwe_key;
+    while (B->done.load() < B->T) { int bit = (int)(k & 1);
+        bootsSymEncrypt(c, bit, S->sk); if (bootsSymDecrypt(c, S->sk) != bit) bad++;
+        int M = 3 + (int)(k % 14); int m = (int)(k % M); lweSymEncrypt(c + 1, modSwitchToTorus32(m, M), 1e-6, lk); if (modSwitchFromTorus32(lwePhase(c + 1, lk), M) != m) bad++;
+        (void)approxPhase((Torus32)(k * 2654435761u), 16 + (int)(k % 5)); k++; }
+    delete_gate_bootstrapping_ciphertext_array(2, c);
+    flush_use();
+    { char tmp[128]; snprintf(tmp, sizeof tmp, "\"e\":\"Client\",\"tid\":%d,\"ops\":%ld,\"wrong\":%ld", t_tid, k, bad); logev(tmp); }
+    { char tmp[96]; snprintf(tmp, sizeof tmp, "\"e\":\"ThreadEnd\",\"tid\":%d,\"decomp\":%ld", t_tid, t_decomp); logev(tmp); }
+}
 int main(int argc, char** argv) {
     vh_init();
     int lambda = vh_arg(argc, argv, "--lambda", 80), rounds = vh_arg(argc, argv, "--rounds", 2), count = vh_arg(argc, argv, "--count", 3); unsigned seed = vh_arg(argc, argv, "--seed", 1);
@@ -193,6 +223,14 @@ int main(int argc, char** argv) {
         for (size_t i = 0; i < th.size(); i++) th[i].join();
         // every thread of this batch has been joined: ids tid_base+1 .. are done
         long s = g_seq.fetch_add(1); std::lock_guard<std::mutex> l(g_mu); Rec rr; rr.seq = s; rr.json = "\"e\":\"Joined\",\"upto\":" + std::to_string(g_next_tid.load()); g_log.push_back(rr);
+    }
+    int storm = vh_arg(argc, argv, "--storm", 0);
+    if (storm > 0) {
+        Storm B; B.arrived.store(0); B.gen.store(0); B.done.store(0); B.T = 8; std::vector<std::thread> th;
+        for (int i = 0; i < B.T; i++) th.emplace_back(storm_worker, &S, &B, seed * 7919 + i, storm);
+        th.emplace_back(storm_client, &S, &B);
+        for (size_t i = 0; i < th.size(); i++) th[i].join();
+        long s2 = g_seq.fetch_add(1); std::lock_guard<std::mutex> l(g_mu); Rec rr; rr.seq = s2; rr.json = "\"e\":\"Joined\",\"upto\":" + std::to_string(g_next_tid.load()); g_log.push_back(rr);
     }
     flush_use();
     std::sort(g_log.begin(), g_log.end(), [](const Rec& a, const Rec& b) { return a.seq < b.seq; });
